@@ -109,7 +109,8 @@ def expr_cases(draw, max_depth=5):
     surface = draw(st.sampled_from(["parse", "parse", "parse", "model", "rule", "growth"]))
     inject = draw(st.sampled_from([None] * 6 + ["unknown", "unknown", "unsupported"]))
     case = {"kind": "expr", "species": species, "params": params, "tree": tree, "style": style, "points": points,
-            "surface": surface, "inject": inject, "rule_via_parameter": draw(st.booleans())}
+            "surface": surface, "inject": inject, "rule_via_parameter": draw(st.booleans()),
+            "rule_kind": draw(st.sampled_from(["assignment", "assignment", "ode"]))}
     if inject == "unknown":
         case["unknown"] = draw(st.sampled_from(UNKNOWN_NAMES))
     if inject == "unsupported":
@@ -315,6 +316,12 @@ def check(case):
                 M = Model(species=species + ["Zout"], parameters=[(p, 1.0) for p in params],
                           reactions=[([], ["Zout"], "general", {"rate": text})],
                           initial_condition_dict={s: 0.0 for s in species + ["Zout"]})
+            elif surface == "rule" and case.get("rule_kind") == "ode":
+                # the expression as the rate of an ODE rule: one Euler step of 0.5 from 0 leaves 0.5 x its value
+                M = Model(species=species + ["Zout"], parameters=[(p, 1.0) for p in params],
+                          rules=[("ode", {"equation": text, "target": "Zout"})],
+                          initial_condition_dict={s: 0.0 for s in species + ["Zout"]})
+                res.label("rule_kind:ode")
             elif surface == "rule" and case.get("rule_via_parameter"):
                 # the expression is assigned to a parameter, which the next rule copies into the observed species
                 M = Model(species=species + ["Zout"], parameters=[(p, 1.0) for p in params] + [("Pzout", 0.0)],
@@ -377,11 +384,14 @@ def check(case):
                         M.set_params({p: pt["params"][p] for p in params if p in pm})
                         I = ModelCSimInterface(M)
                     st_ = xs.copy()
+                    if case.get("rule_kind") == "ode":
+                        I.py_set_dt(0.5)
+                        st_[sm["Zout"]] = 0.0
                     if volmode:
                         I.py_apply_repeated_volume_rules(st_, vol, pt["t"], True)
                     else:
                         I.py_apply_repeated_rules(st_, pt["t"], True)
-                    got = st_[sm["Zout"]]
+                    got = st_[sm["Zout"]] / (0.5 if case.get("rule_kind") == "ode" else 1.0)
                 else:
                     if abs(exp) > 5:
                         continue
